@@ -20,7 +20,7 @@ LEVEL_TEXT = ('For synthetic tables the whole space (table shape x data length x
               'input bytes through a reader that shares no code with pel.hexdump, the field part must equal the reference '
               'lines exactly (name, value zero-padded to the declared width, declared order, stop at the first field that '
               'does not fit).')
-LEVEL_NOTE = 'byte values beyond {00,01,80,FF} only in the single-field sweeps; header syntax variants: static / non-static, brace on same / next line, blanks in the closing line, a further array behind the table'
+LEVEL_NOTE = 'byte values beyond {00,01,80,FF} only in the single-field sweeps; header syntax variants: static / non-static, brace on same / next line, blanks in the closing line, a further array behind the table, names with blanks / tabs at their ends'
 RULE = ('synthetic: size sequences of length 0..5 over {1,2} (63; thorough length 6: 127) x data length 0..total+2 x bytes in '
         '{00,01,FF}^len (len <= 7, else 3 fill patterns); shipped (mex, nimitz): lengths 0..48 x 3 fills, each field alone with '
         'value 1 / 0x80.. / max, each adjacent pair, high-byte-only and low-byte-only for 2-byte fields. Non-trivial: at '
@@ -51,6 +51,9 @@ _files = {}
 
 def field_names(sizes, variant):
     """variant bit 2: every field of a given width carries the same name (reserved / pad fields repeat in real tables)"""
+    if variant & 32:      # the name is the string literal as declared: blanks / tabs at its ends belong to it
+        pat = [' hl_bay %d', 'hl_events (total) %d ', '\thl tab %d', '  two  blanks  %d  ', 'plain_%d']
+        return [(pat[i % len(pat)] % i, s) for i, s in enumerate(sizes)]
     if variant & 8:
         return [('hl i2c bus-%d events (w=%d) over 85\u00b0C \u2211.' % (i, s), s) for i, s in enumerate(sizes)]   # punctuation, non-ASCII
     if variant & 4:
@@ -182,7 +185,7 @@ def run_chunk(chunk):
     elif chunk['k'] == 'syn':
         sizes = chunk['sizes']
         total = sum(sizes)
-        for variant in (0, 1, 2, 3, 4, 5, 6, 7, 8, 11, 16, 19):
+        for variant in (0, 1, 2, 3, 4, 5, 6, 7, 8, 11, 16, 19, 32, 35):
             for n in range(0, total + 3):
                 if n <= 7 and variant in (0, 4):
                     for vals in itertools.product((0x00, 0x01, 0xff), repeat=n):
